@@ -358,7 +358,61 @@ func ZZC01Nested() {
 	c01Assert(root, build(0), v.Choose(0, 1) == 1)
 }
 
+// c01Member: an empty or non-empty array, an empty or non-empty object, or a scalar.
+func c01Member(sel int) *gen.Ex {
+	one := func() *gen.Ex { return &gen.Ex{Kind: gen.KInt, Lit: fixedLit(gen.KInt)} }
+	switch sel {
+	case 0:
+		return &gen.Ex{Kind: gen.KArr}
+	case 1:
+		return &gen.Ex{Kind: gen.KArr, Kids: []*gen.Ex{one()}}
+	case 2:
+		return &gen.Ex{Kind: gen.KObj}
+	case 3:
+		return &gen.Ex{Kind: gen.KObj, Keys: [][]byte{[]byte("k")}, Kids: []*gen.Ex{one()}}
+	case 4:
+		return &gen.Ex{Kind: gen.KArr, Kids: []*gen.Ex{{Kind: gen.KArr, Kids: []*gen.Ex{one()}}}}
+	}
+	return &gen.Ex{Kind: gen.KStr, Lit: fixedLit(gen.KStr)}
+}
+
+// ZZC01Siblings: two or three members of an array or object, each an empty or non-empty container
+// or a scalar and each with its own flags: what a node may carry does not depend on the shape of
+// the sibling written before it. Documents: the example's own shape, or null / another kind in
+// the place of one member.
+func ZZC01Siblings() {
+	n := v.Choose(2, v.Param("members", 2))
+	e := &gen.Ex{Kind: gen.KArr}
+	if v.Choose(0, 1) == 1 {
+		e.Kind = gen.KObj
+	}
+	for i := 0; i < n; i++ {
+		m := c01Member(v.Choose(0, 5))
+		if len(m.Kids) > 0 {
+			scalarFlags(m, v.Choose(0, 2)) // type "any" is for nodes without children
+		} else {
+			scalarFlags(m, v.Choose(0, 3))
+		}
+		e.Kids = append(e.Kids, m)
+		if e.Kind == gen.KObj {
+			e.Keys = append(e.Keys, []byte{byte('a' + i)})
+		}
+	}
+	d := gen.ExampleDoc(e)
+	if dev := v.Choose(-1, n-1); dev >= 0 {
+		if v.Choose(0, 1) == 0 {
+			d.Kids[dev] = &gen.Doc{Kind: gen.KNull, Lit: []byte("null")}
+		} else if d.Kids[dev].Kind == gen.KBool {
+			d.Kids[dev] = &gen.Doc{Kind: gen.KInt, Lit: []byte("7")}
+		} else {
+			d.Kids[dev] = &gen.Doc{Kind: gen.KBool, Lit: []byte("true")}
+		}
+	}
+	c01Assert(e, d, false)
+}
+
 func init() {
+	ZZHarnesses["ZZC01Siblings"] = ZZC01Siblings
 	ZZHarnesses["ZZC01Scalar"] = ZZC01Scalar
 	ZZHarnesses["ZZC01Object"] = ZZC01Object
 	ZZHarnesses["ZZC01Array"] = ZZC01Array
